@@ -3,8 +3,11 @@ package main
 import (
 	"encoding/binary"
 	"fmt"
+	"io"
+	"net"
 	"reflect"
 	"strings"
+	"time"
 
 	"github.com/TheManticoreProject/Manticore/crypto/gppp"
 	"github.com/TheManticoreProject/Manticore/crypto/pkcs7"
@@ -15,6 +18,7 @@ import (
 	"github.com/TheManticoreProject/Manticore/network/ip"
 	"github.com/TheManticoreProject/Manticore/network/ldap"
 	"github.com/TheManticoreProject/Manticore/network/llmnr"
+	"github.com/TheManticoreProject/Manticore/network/netbios/nbt"
 	"github.com/TheManticoreProject/Manticore/network/netbios/nbtns"
 	"github.com/TheManticoreProject/Manticore/network/smb/smb_v10/dialects"
 	"github.com/TheManticoreProject/Manticore/network/smb/smb_v10/message"
@@ -40,6 +44,31 @@ import (
 	"verif/mon"
 	"verif/smbgen"
 )
+
+// scriptConn is a net.Conn whose peer has written data and closed.
+type scriptConn struct {
+	data []byte
+	pos  int
+}
+
+func (c *scriptConn) Read(p []byte) (int, error) {
+	if c.pos >= len(c.data) {
+		return 0, io.EOF
+	}
+	n := copy(p, c.data[c.pos:])
+	if n > 3 {
+		n = 3 // deliver in small segments
+	}
+	c.pos += n
+	return n, nil
+}
+func (c *scriptConn) Write(p []byte) (int, error)      { return len(p), nil }
+func (c *scriptConn) Close() error                     { return nil }
+func (c *scriptConn) LocalAddr() net.Addr              { return &net.TCPAddr{} }
+func (c *scriptConn) RemoteAddr() net.Addr             { return &net.TCPAddr{} }
+func (c *scriptConn) SetDeadline(time.Time) error      { return nil }
+func (c *scriptConn) SetReadDeadline(time.Time) error  { return nil }
+func (c *scriptConn) SetWriteDeadline(time.Time) error { return nil }
 
 // Entry is one decoding entry point with its corpus of valid encodings.
 type Entry struct {
@@ -243,6 +272,19 @@ func buildEntries() []Entry {
 	add("nbtns.NBTNSPacket.Unmarshal", nonNil(pkb, append([]byte{0, 1, 0x01, 0x10, 0, 1, 0, 0, 0, 0, 0, 0, 0x20}, append([]byte("FHEPFCELFDFEEBFEEJEPEOCACACACACA"), 0, 0, 0x20, 0, 1)...)), func(in []byte) { (&nbtns.NBTNSPacket{}).Unmarshal(in) })
 	es = append(es, Entry{Name: "nbtns.FirstLevelDecode", Text: true, Small: true, Seeds: strs("FHEPFCELFDFEEBFEEJEPEOCACACACACA", "FHEPFCELFDFEEBFEEJEPEOCACACACACA.corp.example", ""),
 		Call: func(in []byte) { nbtns.FirstLevelDecode(string(in)) }})
+
+	// ---------------- NBT session transport (scripted in-memory peer that delivers the bytes, then EOF)
+	frame := func(p []byte) []byte {
+		return append([]byte{0, byte(len(p) >> 16 & 1), byte(len(p) >> 8), byte(len(p))}, p...)
+	}
+	add("nbt.NBTTransport.Receive", [][]byte{frame([]byte("hello")), append(frame([]byte{1, 2, 3}), frame(make([]byte, 300))...), frame(nil), {0x85, 0, 0, 0}}, func(in []byte) {
+		t := nbt.NewNBTTransportFromConn(&scriptConn{data: in})
+		for i := 0; i < 64; i++ {
+			if _, err := t.Receive(); err != nil {
+				return
+			}
+		}
+	})
 
 	// ---------------- key credentials
 	var kcb, rsab []byte
